@@ -32,6 +32,31 @@ def key_for(real, spec_case):
     return "C01|crash|%s|%s" % (site, var)
 
 
+def reference_chains():
+    """aliases of aliases: a declaration whose value is another declaration's name, two and three links long, reference (@)
+    and plain names mixed, consumed at every kind of position (judged by the property itself: accepted => no crash)"""
+    values = {
+        "obj": "{ 'X-Id str }", "uri": "/things", "urivar": "/things/{ 'id int }", "rel": "/r on get -> <>", "xfer": "get -> <>",
+        "cnt": "<status=200, { 'a num }>", "prim": "num", "arr": "[str]", "rec": "rec x { 'k [x] }", "str": '"text/plain"', "status": "404",
+        "prop": "'p num",
+    }
+    uses = [
+        "res / on get -> <{N}>;", "res / on get -> <headers={N}, {}>;", "res / on get -> <media={N}, {}>;", "res / on get -> <status={N}, {}>;",
+        "res {N} on get -> <>;", "res (concat {N} /x) on get -> <>;", "res (concat /x {N}) on get -> <>;", "res {N};", "res / on {N};",
+        "res / on get -> {N};", "res / on put : {N} -> <>;", "res / on get -> <{N} & {}>;", "res / on get -> <{N} | num>;", "res / on get -> <[{N}]>;",
+        "res / on get -> <{ 'q {N} }>;", "res / on get -> <{ {N} }>;", "res /a/{ {N} } on get -> <>;", "res / on get -> {N} :: <status=500, {}>;",
+        "let f x = x; res / on get -> <f {N}>;", "res / on get { 'q {N} } -> <>;",
+    ]
+    chains = [["@a", "@b"], ["@a", "@b", "@c"], ["a", "@b"], ["@a", "b"], ["@a", "b", "@c"], ["a", "@b", "c"]]
+    out = []
+    for v in values.values():
+        for ch in chains:
+            decls = "let %s = %s;\n" % (ch[0], v) + "".join("let %s = %s;\n" % (ch[i], ch[i - 1]) for i in range(1, len(ch)))
+            for u in uses:
+                out.append(decls + u.replace("{N}", ch[-1]) + "\n")
+    return out
+
+
 def run(tier):
     chk = Check("C01", tier)
     rng = random.Random(common.seed())
@@ -88,7 +113,7 @@ def run(tier):
     chk.notes["crashes_predicted_by_the_specification"] = predicted_crashes
     # independently: other families of accepted programs must not crash either
     import c04
-    extra = c04.rec_shapes()
+    extra = c04.rec_shapes() + reference_chains()
     eo = run_oalv_parallel("compile", [{"main": progs.B + "m1.oal", "files": {progs.B + "m1.oal": t}, "want": {}} for t in extra], jobs=8)
     for t, o in zip(extra, eo):
         if o.get("outcome") == "skipped":
